@@ -14,4 +14,7 @@ cd Extract
 ocamlfind ocamlopt -O3 -w -a -package str model.mli model.ml driver_lib.ml driver.ml -o driver
 sha256sum model.mli model.ml driver_lib.ml driver.ml > /dev/null
 rm -f driver.stamp
+# warm the Print Assumptions cache (one more coqc per Props file, in parallel) so that checks on an unchanged tree
+# do not recompile their Props file
+PYTHONPATH="${VERIF_REPO:-/repo}" /venv/bin/python "$here/tools/warm_assumptions.py" 2>&1 | grep -v conda || true
 echo "setup ok"
